@@ -68,7 +68,10 @@ def render_task(ns: str, name: str, tdef: dict, ver: int, extra_opts: Optional[d
                 arg = f"c{c['i']}"
             else:
                 arg = f"x + {c['v']}"
-            call = f"{c['t']}({'hh, ' if hmap.get(c['t']) else ''}{arg})"
+            callee = c["t"]
+            if c.get("u"):   # call-time limits: replace the task's own
+                callee = f"{c['t']}.options(limits={dict(c['u'])!r})"
+            call = f"{callee}({'hh, ' if hmap.get(c['t']) else ''}{arg})"
             if c.get("g"):
                 call = f"catch({call}, Exception, rec)"
             lines.append(f"    c{i} = {call}")
@@ -141,6 +144,7 @@ def normalize(prog: dict) -> dict:
         for v in t["vers"]:
             for c in v["children"]:
                 c.setdefault("g", 0)
+                c.setdefault("u", {})
                 guarded = guarded or bool(c["g"])
     # the recover task of guarded (catch) children is always declared, so that TLC sees one shape
     prog["tasks"].setdefault("rec", {"units": {}, "h": 0, "scope": "BACKEND", "sh": 0, "as": 0,
@@ -205,6 +209,13 @@ def random_program(rng, ns: str, max_kids: int = 4, p_fail: float = 0.25, plan: 
                 out.append({"t": t, "k": "c", "v": rng.choice(small), "i": 0})
         return out
 
+    def with_overrides(ks):
+        for c in ks:
+            if rng.random() < 0.15 and c["t"] in ("leaf", "leaf2", "mid"):
+                r = rng.choice(res)
+                c["u"] = {r: rng.randint(1, max(1, limits.get(r, 1)))}
+        return ks
+
     guard_bad = rng.random() < 0.5   # calls of the failing task are wrapped in catch(...)
     has_bad = rng.random() < p_fail
     has_h = rng.random() < 0.4
@@ -220,10 +231,10 @@ def random_program(rng, ns: str, max_kids: int = 4, p_fail: float = 0.25, plan: 
                                                 "children": []},
                                                {"kind": "leaf", "add": 3, "children": []}]},
         "mid": {"units": units(0.15), "sh": 1 if rng.random() < 0.35 else 0,
-                "vers": [{"kind": "calls", "add": 0, "children": kids(leafs, rng.randint(1, 3))},
+                "vers": [{"kind": "calls", "add": 0, "children": with_overrides(kids(leafs, rng.randint(1, 3)))},
                          {"kind": "calls", "add": 0, "children": kids(leafs, rng.randint(1, 2))}]},
         "main": {"units": {}, "vers": [{"kind": "calls", "add": 0,
-                                        "children": kids(mids, rng.randint(2, max_kids))}]},
+                                        "children": with_overrides(kids(mids, rng.randint(2, max_kids)))}]},
     }
     # a demand above the limit can never be served (excluded by the premise of C09)
     for t in tasks.values():
